@@ -188,11 +188,15 @@ def long_utterance_start(c):
     thorough = c.tier == "thorough"
     stats, cases = {}, []
     for f in sorted((vlib.ROOT / "corpus" / "C03" / "long").glob("*.json")):
-        cases.append((f"corpus-long-{f.stem}", json.loads(f.read_text())))
+        cases.append((f"c03long-corpus-{f.stem}", json.loads(f.read_text())))
+        u0 = cases[-1][1]["units"][0]
+        stats.setdefault("corpus_cases (repetitions of goforward.raw, processing calls, results asked for)", []).append(
+            (len(u0["utts"][0]["audio"]), sum(1 for o in u0["utts"][0]["plan"] if o[0] == "proc"),
+             [o[1] for o in u0["utts"][0]["plan"] if o[0] == "dump"]))
     if thorough:
-        cases += [(f"long{k}", gen_long_case(c.rng, b, stats)) for k, b in enumerate([32768, 32768, 65536])]
+        cases += [(f"c03long{k}", gen_long_case(c.rng, b, stats)) for k, b in enumerate([32768, 32768, 65536])]
     elif not cases:
-        cases.append(("long0", gen_long_case(c.rng, 32768, stats, first=True)))
+        cases.append(("c03long0", gen_long_case(c.rng, 32768, stats, first=True)))
     st = {"cases": cases, "stats": stats, "results": None, "stop": False, "error": None}
 
     def ready():
@@ -375,7 +379,7 @@ def vocabulary_family(c):
     binp, nfoff = Path(c.scratch) / "h_c01-asan", c01.nframes_offset()
     thorough = c.tier == "thorough"
     stats = {}
-    cases = [(f"vocab{k}", gen_vocab_case(c.rng, stats, k)) for k in range(10 if not thorough else 200)]
+    cases = [(f"c03vocab{k}", gen_vocab_case(c.rng, stats, k)) for k in range(10 if not thorough else 200)]
     with concurrent.futures.ThreadPoolExecutor(max_workers=4) as ex:
         results = list(ex.map(lambda t: c01.run_case(binp, t[1], c.scratch, t[0], nfoff), cases))
     ok, seen = True, {"results": 0, "results_with_an_added_alternate_FILLER_on_the_best_path": 0,
@@ -386,6 +390,8 @@ def vocabulary_family(c):
         for inf in r["infos"]:
             seen["results"] += 1
             af, aw = inf.get("alt_filler_segments") or [], inf.get("alt_word_segments") or []
+            hk = "hypotheses_of_C03_filler_marks_follow_dictionary_on_the_dump: " + str(inf.get("filler_theorem_hypotheses"))
+            seen[hk] = seen.get(hk, 0) + 1
             seen["results_with_an_added_alternate_FILLER_on_the_best_path"] += 1 if af else 0
             seen["results_with_an_added_alternate_of_an_ordinary_word_on_the_best_path"] += 1 if aw else 0
             for w in set(af + aw):
